@@ -76,6 +76,7 @@ partial def step (st : Cache) (ws : List String) : Cache × String :=
         (st', runRt fs d vals)
       | _ => (st, "bad-op")
     | _ => (st, "bad-op")
+  | "cc" :: r => step st ("rt" :: r)      -- concurrent first use: the settled result is an ordinary round trip
   | "rth" :: r => step st ("rt" :: r)     -- a member of a history: an independent round trip
   | "wrx" :: r => step st ("wr" :: r)
   | "wr" :: r =>
